@@ -38,6 +38,8 @@ func histSystems(cloud bool) []*HistSys {
 			// one replica, two pod names: the replacement of a deleted pod carries another name, and it may be scheduled before or
 			// after the old pod's delete event is handled
 			out = append(out, &HistSys{Class: c, Cfg: cfgTwoPools(cloud), NPods: 2, Replicas: 1, Ops: histOpsAll, PrefixName: "onereplica"})
+			// the same with a surge of one: the replacement may exist next to the pod it replaces (status.replicas > spec.replicas)
+			out = append(out, &HistSys{Class: c, Cfg: cfgTwoPools(cloud), NPods: 2, Replicas: 1, Surge: 1, Ops: histOpsAll, PrefixName: "onereplica-surge"})
 		}
 		if c.Kind == "dppool" {
 			// the pool additionally has a Pool object with a size (filter then allocates during Filter)
